@@ -98,7 +98,7 @@ finding("call-indirect-no-signature-check", ["python"], ["no-call-indirect-sig-m
 finding("py-f32-runtime-helpers-not-rounded", ["python"], ["no-f32-sqrt-demote"])
 finding("py-f32-convert-i64-double-rounding", ["python"], ["f32-convert-i64-53bit"])
 finding("py-call-indirect-no-bounds-check", ["python"], ["no-call-indirect-oob"])
-finding("native-x86-variable-shift-miscompiled-under-pressure", ["native"], ["const-shift-count"])
+finding("native-x86-i64-shift-miscompiled-under-pressure", ["native"], ["const-shift-count", "no-i64-shift"])
 finding("wasm2ir-br-table-mutates-module", TARGETS, ["no-module-reuse"])
 finding("wasm2ir-loop-in-dead-code-crash", TARGETS, ["no-loop-in-dead-code"])
 finding("py-imported-func-in-elem-keyerror", ["python"], ["no-imported-func-in-elem"])
@@ -1017,7 +1017,7 @@ PROBES = {
                                                            "f32.convert_i64_s(0x1000001000000001)"),
     "py-call-indirect-no-bounds-check": lambda: _expect_k("python", "tableoob", 1, "trap",
                                                           "call_indirect with index -1 into a table of size 1"),
-    "native-x86-variable-shift-miscompiled-under-pressure": lambda: _expect(
+    "native-x86-i64-shift-miscompiled-under-pressure": lambda: _expect(
         "native", "shiftsel", "sh", "65503", "g1 >>u select(trunc_sat(...), l1|l2, trunc(1.5)) + l1 (g1 = -(2^53+1))"),
     "call-indirect-no-signature-check": lambda: _expect("python", "sig", "ci", "trap",
                                                         "call_indirect (type (i32)->i32) of a (f32)->i32 function"),
